@@ -72,7 +72,8 @@ def canon(x):
 # "nested JSON-able custom data": strings that look like JSON tokens, escapes, quotes, non-ASCII text, and the spellings Python's json
 # module uses for non-finite floats -- as VALUES and as KEYS
 STRINGS = ["a", "ü", "", "Infinity", "-Infinity", "NaN", "null", "1e999", "x = -Infinity;", 'say "hi"', "back\\slash", "tab\there", "new\nline",
-           "\u2603 snow", "{\"a\": 1}", "[1, 2]", "true", "0.1", "  spaced  ", "\x00nul", "'; DROP TABLE individuals; --"]
+           "\u2603 snow", "{\"a\": 1}", "[1, 2]", "true", "0.1", "  spaced  ", "\x00nul", "'; DROP TABLE individuals; --",
+           "2024", "7", "07", "007", "-1", "1e3"]          # digit-only keys stay strings (and stay distinct)
 
 
 class FP:
@@ -135,7 +136,8 @@ def mutate(rng, ind, others):
     elif k == 1:
         ind.population_id = rng.randint(-1, 5)
     elif k == 2:
-        ind.custom = {"note": rng.choice(STRINGS), rng.choice(STRINGS[1:]) or "k": rng.choice(STRINGS), "nested": {"x": [rng.choice(NASTY), [1, 2, {"y": rng.choice(NASTY)}]]},
+        ind.custom = {"note": rng.choice(STRINGS), rng.choice(STRINGS[1:]) or "k": rng.choice(STRINGS), rng.choice(STRINGS[-6:]): rng.randint(0, 9),
+                      rng.choice(STRINGS[-6:]): {"7": 1, "07": 2}, "nested": {"x": [rng.choice(NASTY), [1, 2, {"y": rng.choice(NASTY)}]]},
                       "n": rng.randint(-5, 5), "flag": rng.random() < 0.5}
     elif k == 3:
         ind.features["crowding_distance"] = rng.choice(NASTY)
